@@ -24,6 +24,7 @@ fn main() {
         Scenario::Reload(ReloadKind::RefusedGarbage),
         Scenario::Reload(ReloadKind::RefusedMissing),
         Scenario::HostileReturn,
+        Scenario::Control,
     ];
     let pick: Vec<Scenario> = all.iter().copied().filter(|s| which == "all" || format!("{s:?}").to_lowercase().contains(&which.to_lowercase())).collect();
     let bin = live::vlive_path();
